@@ -358,3 +358,11 @@ def run(ctx):
             n_fd += check_panics(ctx, FB_, 'C06.1-fragment-decoders-total')
             ctx.ok('C06.1-fragment-decoders-total', FB_.path, 'every panic-capable site of the body is discharged (%d blocks examined)' % len(FB_.blocks))
     ctx.anchor(P.B('erltf::decoder::decode_fragment_header') is not None, 'erltf::decoder::decode_fragment_header')
+
+    # "every later frame is still delivered": through a Node the frames are read by the receiver task, which has to go on after an error that concerns one frame
+    ctx.rule('C06.4-receiver-goes-on', 'the node\'s receiver loop continues on every kind of error the receive function raises after a whole frame was consumed (decode, control-parse and marker errors) and '
+             'stops only where the stream is lost (rules C19.3-exit-classification and C19.3-sync-after-error re-run): a frame-local error that ends the loop loses every later frame of that peer', floor=4)
+    from ..order import SubCtx as _Sub06
+    from . import c19 as _c19_06
+    if type(ctx).__name__ != 'SubCtx':
+        _c19_06.run(_Sub06(ctx, 'C06.4-receiver-goes-on', 'c19', allow=('C19.3-exit-classification', 'C19.3-sync-after-error')))
